@@ -23,6 +23,7 @@ import (
 	quic "github.com/refraction-networking/uquic"
 	"github.com/refraction-networking/uquic/internal/verif/evlog"
 	"github.com/refraction-networking/uquic/internal/verif/quicworld"
+	"github.com/refraction-networking/uquic/internal/verif/simworld"
 	"github.com/refraction-networking/uquic/internal/verif/specgen"
 	"github.com/refraction-networking/uquic/internal/verif/wiretap"
 	tls "github.com/refraction-networking/utls"
@@ -419,4 +420,48 @@ func runC15Wire(l *evlog.Log, c *evlog.Case, cs *c15wCase) {
 	}
 	l.Count("wire_stream_limit_errors_verified", 1)
 	_ = peer
+}
+
+// The passive wire invariant under faults: transfers that need far more streams than the limits allow at
+// once (44 streams against 6 / 3, one stream at a time against a limit of 1, cancellations), with each of
+// the first datagrams of either direction dropped once, so that MAX_STREAMS / STREAMS_BLOCKED rounds are
+// lost and repeated: a stream opened by an endpoint never has a number beyond the largest stream count
+// its peer had put on the wire by then.
+func TestVerifC15WireFaults(t *testing.T) {
+	l := evlog.Open("C15")
+	defer l.Close()
+	var cases []*quicworld.ConnCase
+	for _, cl := range []string{"plain", "unil", "Firefox_116A", "Chrome_115_IPv4"} {
+		for _, sc := range []string{"S7", "S9", "S10"} {
+			for d := 0; d < 2; d++ {
+				for o := 0; o < l.Pick(40, 200); o++ {
+					lim := 0
+					if sc == "S9" {
+						lim = 1
+					}
+					cases = append(cases, &quicworld.ConnCase{Name: fmt.Sprintf("limits/%s/%s/d%d-o%d-drop", sc, cl, d, o), Client: cl, SmallLimits: sc == "S7", StreamLimit: lim, RTTms: 10, ConnIdx: len(cases),
+						Schedule: simworld.Schedule{Faults: []simworld.Fault{{Dir: wiretap.Dir(d), Ordinal: o, Action: simworld.Action{Kind: "drop"}}}}, Transfer: quicworld.Scenario(sc, uint64(len(cases)))})
+				}
+			}
+		}
+	}
+	quicworld.RunSuite(t, l, cases, func(c *evlog.Case, cc *quicworld.ConnCase, r *quicworld.CaseResult) {
+		fp := ""
+		var checks int64
+		for _, tp := range r.Taps {
+			checks += tp.Counts["c15_stream_count_checks"]
+		}
+		if checks > 0 {
+			fp = cc.Name
+		}
+		c.Eval(fp)
+		l.Count("wire_stream_count_checks", checks)
+		for _, tp := range r.Taps {
+			for _, a := range tp.Anomalies {
+				if a.Prop == "C15" {
+					c.Violation(a.Sig, a.Detail, map[string]any{"wire": tp.Describe(40), "router": r.RouterLog})
+				}
+			}
+		}
+	})
 }
